@@ -402,7 +402,8 @@ Inductive op :=
 | DrawLayer (color_mode : bool) (vmin vmax : option Z) (a4 : Z)
 | Check (s : list param) (ps : list Z)
 | Split (ps : list (Z * pvalue))
-| Creator (s : list param) (ps : list (Z * pvalue)).   (* ModelCreator's parameter check *)
+| Creator (s : list param) (ps : list (Z * pvalue))    (* ModelCreator's parameter check *)
+| Bind (s : list param) (ps : list Z).                 (* does the keyword call M(k=.., ...) itself succeed *)
 
 Definition find_agent (id : Z) (l : list agent) : option agent := find (fun a => a_id a =? id) l.
 Definition occupied (p : coord) (l : list agent) : bool := existsb (at_cell p) l.
@@ -550,6 +551,7 @@ Definition step (sp : space) (pt : portrayal) (st : state) (o : op) : state * li
          _check_model_params(model.__class__.__init__, {**fixed_params, **user_params})  (as repaired) *)
       let sp' := split_model_params ps in
       (st, let r := check s (map fst (snd sp' ++ fst sp')) in if r =? 0 then [0] else obs_err r)
+  | Bind s ps => (st, [if bindable s ps then 1 else 0])
   end.
 
 Fixpoint run_ops (sp : space) (pt : portrayal) (st : state) (ops : list op) : list (list Z) :=
